@@ -22,6 +22,7 @@ Cell.sub_entities(tdim) are prefixed "proxy-".
 
 import itertools
 import json
+import re
 import weakref
 from math import comb
 
@@ -190,6 +191,7 @@ class Checker:
         self.lex_order_bad = []
 
     def vio(self, law, cellname, detail, what, witness):
+        what = re.sub(r"0x[0-9a-f]+", "0x..", what)  # object addresses are not part of the finding
         key = f"{law}:{cellname}" + (f"|{detail}" if detail != "" else "")
         self.fail.setdefault(law, {}).setdefault(key, (key, what, witness))
 
@@ -202,8 +204,9 @@ class Checker:
                 self.run.violation(key, what, wit)
         self.fail = {}
 
-    def add_order(self, label, desc, obj):
-        self.order_universe.append((label, desc, obj, is_proxy(obj)))
+    def add_order(self, label, desc, obj, root=None):
+        # root: descriptor of the top-level cell from which obj was obtained (for replay)
+        self.order_universe.append((label, desc, obj, is_proxy(obj), root or desc))
 
     # ---------------------------------------------------------------------------------------
     def check_cell(self, desc, obj=None, label=None, depth=0):
@@ -454,14 +457,14 @@ class Checker:
                 if d == M.dim:
                     # the self entity: checked in check_self_entity; the one of a top-level cell joins the order universe
                     if top and (is_proxy(e) or desc_of(e) == desc):
-                        self.add_order(f"{name}.self", desc, e)
+                        self.add_order(f"{name}.self", desc, e, desc)
                     continue
                 sub_desc = desc_of(e)
                 lab = f"{name}.sub_entities({d})[{k}]"
                 if depth < 6:
                     self.check_cell(sub_desc, e, lab, depth + 1)
                 if top and k == 0:
-                    self.add_order(f"{name}.sub({d})[0]", sub_desc, e)
+                    self.add_order(f"{name}.sub({d})[0]", sub_desc, e, desc)
 
     # ---------------------------------------------------------------------------------------
     def check_self_entity(self, name, desc, obj, e, wit):
@@ -587,7 +590,7 @@ class Checker:
                 o = outcome(lambda: a < b)
                 run.transitions += 1
                 run.states += 1
-                w = {"order": [djson(U[i][1]), djson(U[j][1])], "paths": [names[i], names[j]]}
+                w = {"order": [djson(U[i][4]), djson(U[j][4])], "paths": [names[i], names[j]]}
                 if o[0] != "ok":
                     run.error(o[1] or "NotImplementedError")
                     run.outcomes.add(("lt", o[0], o[1]))
@@ -604,7 +607,7 @@ class Checker:
             for j in range(n):
                 a, b = U[i][2], U[j][2]
                 same = keys[i] == keys[j]
-                w = {"order": [djson(U[i][1]), djson(U[j][1])], "paths": [names[i], names[j]]}
+                w = {"order": [djson(U[i][4]), djson(U[j][4])], "paths": [names[i], names[j]]}
                 run.validated += 1
                 if not same:
                     run.nontrivial += 1
@@ -633,7 +636,7 @@ class Checker:
             bad = prem & DEF & ~LT
             for i, k in np.argwhere(bad):
                 i, k = int(i), int(k)
-                w = {"order": [djson(U[i][1]), djson(U[j][1]), djson(U[k][1])], "paths": [names[i], names[j], names[k]]}
+                w = {"order": [djson(U[i][4]), djson(U[j][4]), djson(U[k][4])], "paths": [names[i], names[j], names[k]]}
                 self.vio(
                     fam("order-trans", (i, j, k)),
                     names[i],
@@ -686,6 +689,17 @@ def nested_descs(max_tdim, names):
 
 
 def main(argv):
+    try:
+        _main(argv)
+    except Exception:  # harness/internal error: exit 2, never a VIOLATION line
+        import sys
+        import traceback
+
+        traceback.print_exc()
+        sys.exit(2)
+
+
+def _main(argv):
     run = Run(PID, argv)
     if run.args.replay:
         return replay(run)
@@ -773,7 +787,10 @@ def replay(run):
     wit = rp["witness"]
     ck = Checker(run)
     if "order" in wit:
-        ds = [dfromjson(j) for j in wit["order"]]
+        ds = []
+        for j in wit["order"]:
+            if dfromjson(j) not in ds:
+                ds.append(dfromjson(j))
         for d in ds:
             ck.check_cell(d)
             ck.add_order(dname(d), d, dbuild(d))
